@@ -127,10 +127,10 @@ def judge_model(spec, backend):
         if n == "SolverError":
             return [], "solver-error", 0
         return [("model:solve-raised:%s:%s" % (backend, n), str(r["exc"])[:200])], "raised", 0
-    return validate_posed(pep, backend)
+    return validate_posed(pep, backend, regenerate=True)
 
 
-def validate_posed(pep, backend, dr=False):
+def validate_posed(pep, backend, dr=False, regenerate=False):
     """Translation validation of an already solved problem whose wrapper is a recording subclass.
     dr: a dimension-reduction heuristic was used: the final problem carries one extra (untracked) optimality row and a
     replaced objective, which are C11 / C14's business; they are accounted for, not judged, here."""
@@ -246,6 +246,47 @@ def validate_posed(pep, backend, dr=False):
     # ---- objective
     if not dr and (posed["objsense"] != "max" or not close(posed["objective"], objvec)):
         probs.append(("model:objective:%s" % backend, "the solver objective is not 'maximise the objective leaf'"))
+    # ---- the class system of every leaf function: what was sent for the function must be what the function's own generator
+    #      produces for its recorded samples (C04 compares that generator with the documented conditions) - whatever the
+    #      number of samples and whichever way (directly / through its transpose) the function was used
+    if regenerate:
+        from PEPit.function import Function
+        from mc.checks.c04 import nvec, lmi_forms
+        sent_ids = {id(call[1]) for call in calls}
+        for f in list(Function.list_of_functions):
+            if not f.get_is_leaf():
+                continue
+            sent_sc = [c_ for c_ in f.list_of_class_constraints if id(c_) in sent_ids]
+            sent_lm = [m_ for m_ in f.list_of_class_psd if id(m_) in sent_ids]
+            try:
+                f.set_class_constraints()
+            except Exception as e:
+                probs.append(("model:class-regeneration-raised:%s" % backend, "%s: %s" % (type(f).__name__, str(e)[:100])))
+                continue
+            nP2, nF2 = Point.counter, Expression.counter
+
+            def fs(cons):
+                out = set()
+                for c_ in cons:
+                    nv = nvec(R.functional_vec(c_.expression, nP2, nF2), c_.equality_or_inequality)
+                    if nv:
+                        out.add(nv)
+                return out
+
+            def ls(mats):
+                out = set()
+                for m_ in mats:
+                    if m_.shape[0]:
+                        sym, _ = lmi_forms(m_, nP2, nF2)
+                        out.add((m_.shape[0],) + tuple(np.round(sym, 7).ravel().tolist()))
+                return out
+            want_sc, want_lm = fs(f.list_of_class_constraints), ls(f.list_of_class_psd)
+            got_sc, got_lm = fs(sent_sc), ls(sent_lm)
+            if want_sc - got_sc or want_lm - got_lm:
+                probs.append(("model:class-system-not-sent:%s" % backend,
+                              "%s with %d recorded sample(s): %d scalar class condition(s) and %d class LMI(s) that its own generator "
+                              "produces for these samples did not reach the solver"
+                              % (type(f).__name__, len(f.list_of_points), len(want_sc - got_sc), len(want_lm - got_lm))))
     # dedupe by key
     seen, out = set(), []
     for k, m in probs:
